@@ -1,11 +1,25 @@
 /-
 C01: the Go-shaped model of flate.Reader refines the RFC 1951 specification.
+
+Components (all under Compress/Proofs/):
+  FlateDefs    shared vocabulary, component statements, one-step equations
+  FlateHuff    1. Huffman trees: `mkTree`/table decoder = counting decoder (`treeEquiv`, `fixedEquiv`)
+  FlateHeader  2. dynamic block header (`headerEquiv`)
+  FlateBlock   3. block body through the window refinement (`readBlock_sim`)
+  FlateStep    4. stored blocks (`raw_sim`), block headers (`header_sim`), one step (`step_post`, `post_J`)
+  FlateRead    5. the `Read` loop for any schedule (`run_correct`)
+  FlateBound / FlateMono   size bound and monotonicity of the specification's output
+  FlateSys     6. the invariant `J` (`stepSys`, `J_init`)
 -/
 import Compress.Flate.Impl
 import Compress.Flate.Spec
 import Compress.Proofs.Window
 import Compress.Proofs.PrefixCodes
 import Compress.Proofs.PrefixTables
+import Compress.Proofs.FlateSys
+import Compress.Proofs.FlateHuff
+import Compress.Proofs.FlateHeader
+import Compress.Proofs.FlateRead
 
 namespace Compress.Proofs.FlateRefine
 open Compress Compress.Flate
@@ -16,9 +30,28 @@ def errOf : Verdict → Impl.FErr
   | .corrupt => .corrupted
   | .unexpectedEOF => .unexpectedEOF
 
+theorem errOf_eq_verr : errOf = verr := by
+  funext v; cases v <;> rfl
+
 /-- enough `Read` calls for any stream: every call with a non-empty buffer
     delivers at least one byte or ends the stream. -/
 def runFuel (bits : Bits) (sched : List Nat) : Nat := 300 * bits.length + sched.length + 16
+
+/-- the refinement for an arbitrary bit list whose length is a multiple of 8. -/
+theorem impl_refines_spec_bits (bits : Bits) (h8 : bits.length % 8 = 0) (sched : List Nat)
+    (hs : ∀ n, sched.getLast? = some n → 0 < n) :
+    ∃ s', Impl.run (runFuel bits sched) (Impl.init bits) sched =
+        ((Flate.decodeBits bits).out.toList, some (errOf (Flate.decodeBits bits).verdict), s') ∧
+      (∀ n, (Flate.decodeBits bits).verdict = .ok n → s'.total - s'.bits.length = n) := by
+  have S := stepSys (headerEquiv treeEquiv) fixedEquiv bits.length (Flate.decodeBits bits) h8
+  have hsz := decodeBits_size bits
+  obtain ⟨s', hrun, hJ, herr, _⟩ := run_correct _ _ _ S (Impl.init bits) (J_init bits) sched hs
+    (runFuel bits sched) (by unfold runFuel; simp only [Array.length_toList]; omega)
+  refine ⟨s', by rw [hrun, errOf_eq_verr], ?_⟩
+  obtain ⟨out, _, _, Rl, _⟩ := hJ
+  intro n hn
+  rw [Rl.tot]
+  exact (Rl.err _ herr).2.2 n hn
 
 /-- **C01 (refinement).** For every byte string and every schedule of `Read`
     buffer lengths (zeros allowed anywhere but in the last position, which
@@ -36,7 +69,17 @@ theorem impl_refines_spec (bytes : List UInt8) (sched : List Nat)
     let spec := Flate.decodeBits bits
     r.1 = spec.out.toList ∧ r.2.1 = some (errOf spec.verdict) ∧
     (∀ n, spec.verdict = .ok n → r.2.2.total - r.2.2.bits.length = n) := by
-  sorry
+  intro bits r spec
+  have h8 : bits.length % 8 = 0 := by
+    show (Bits.ofBytes bytes).length % 8 = 0
+    rw [Compress.Proofs.Meta.length_ofBytes]; omega
+  obtain ⟨s', hrun, hn⟩ := impl_refines_spec_bits bits h8 sched hs
+  show (Impl.run (runFuel bits sched) (Impl.init bits) sched).1 = _ ∧
+    (Impl.run (runFuel bits sched) (Impl.init bits) sched).2.1 = _ ∧
+    ∀ n, _ → (Impl.run (runFuel bits sched) (Impl.init bits) sched).2.2.total -
+      (Impl.run (runFuel bits sched) (Impl.init bits) sched).2.2.bits.length = n
+  rw [hrun]
+  exact ⟨rfl, rfl, hn⟩
 
 /-- C10 for flate, as a corollary: two schedules give the same bytes and the same final error. -/
 theorem schedule_independent (bytes : List UInt8) (s1 s2 : List Nat)
@@ -44,6 +87,10 @@ theorem schedule_independent (bytes : List UInt8) (s1 s2 : List Nat)
     let bits := Bits.ofBytes bytes
     (Impl.run (runFuel bits s1) (Impl.init bits) s1).1 = (Impl.run (runFuel bits s2) (Impl.init bits) s2).1 ∧
     (Impl.run (runFuel bits s1) (Impl.init bits) s1).2.1 = (Impl.run (runFuel bits s2) (Impl.init bits) s2).2.1 := by
-  sorry
+  intro bits
+  have a := impl_refines_spec bytes s1 h1
+  have b := impl_refines_spec bytes s2 h2
+  simp only at a b
+  exact ⟨a.1.trans b.1.symm, a.2.1.trans b.2.1.symm⟩
 
 end Compress.Proofs.FlateRefine
